@@ -36,7 +36,8 @@ Proof. unfold eq_xl; intros a b c H1 H2. rewrite H2, H1. destruct a; reflexivity
 (* the fields a "same except" relation keeps, as one record of equalities *)
 Record keeps_q (s s' : state) : Prop := {
   kq_queue : queue s' = queue s; kq_wcnt : wcnt s' = wcnt s; kq_wbytes : wbytes s' = wbytes s;
-  kq_stopping : stopping s' = stopping s; kq_looper : looper s' = looper s; kq_nsend : nsend s' = nsend s }.
+  kq_stopping : stopping s' = stopping s; kq_looper : looper s' = looper s; kq_nsend : nsend s' = nsend s;
+  kq_broken : broken s' = broken s }.
 
 Lemma keeps_q_refl : forall s, keeps_q s s.
 Proof. constructor; reflexivity. Qed.
@@ -179,7 +180,8 @@ Proof.
   destruct (group_requests s reqs res []) as [[s2 o2] pls] eqn:E. apply group_requests_xo in E as [E1 E2].
   destruct pls.
   - inv H; constructor; auto with prod; discriminate.
-  - inv H; constructor.
+  - destruct (broken s2); [inv H; constructor; auto with prod; discriminate|].
+    inv H; constructor.
     + eapply keeps_q_trans; [apply eq_xo_keeps; exact E1|kq].
     + apply no_ghost_app; auto with prod. repeat constructor.
     + intros _; left; simpl; discriminate.
@@ -271,9 +273,9 @@ Proof.
   destruct (map_lookups _ _ _ _) as [[s1 o1] ls] eqn:E1.
   apply map_lookups_xl in E1 as (A1 & A2 & A3);
     [|intros st x l st' o' l' Hf; inv Hf; eapply lookup_head_xl; eauto].
-  apply eq_xl_keeps in A1. destruct A1 as [Q1 Q2 Q3 Q4 Q5 Q6]. simpl in *.
+  apply eq_xl_keeps in A1. destruct A1 as [Q1 Q2 Q3 Q4 Q5 Q6 Q7b]. simpl in *.
   destruct (lookups_progress s1 (queue s) ls) as [[s2 o2] done] eqn:E2.
-  apply lookups_progress_ok in E2 as [[R1 R2 R3 R4 R5 R6] N _].
+  apply lookups_progress_ok in E2 as [[R1 R2 R3 R4 R5 R6 R7b] N _].
   destruct done.
   - unfold finish0 in H. inv H. simpl. repeat split; try congruence.
     eexists; split; [reflexivity|]. repeat apply no_dispatch_app; auto with prod. repeat constructor.
@@ -355,7 +357,7 @@ Lemma send_requests_ph : forall s reqs res s1 o1, send_requests s reqs res = (s1
 Proof.
   unfold send_requests; intros s reqs res s1 o1 H. destruct (stopping s); [discriminate|]. destruct (api s =? 0).
   - inv H; simpl; discriminate.
-  - destruct (group_requests s reqs res []) as [[? ?] []]; inv H; simpl; discriminate.
+  - destruct (group_requests s reqs res []) as [[s2 ?] []]; [inv H|]. destruct (broken s2); inv H; simpl; discriminate.
 Qed.
 Lemma lookups_progress_ph : forall s reqs ls s1 o1, lookups_progress s reqs ls = (s1, o1, false) -> ph s1 <> Idle.
 Proof.
